@@ -733,7 +733,8 @@ def c17(tier, sc):
     rep.part("valuecontexts.real", cases=len(meta), checked=n1b)
     n1 += n1b
     # (2) range / order / count clauses on real token traces (monitor, no algorithm)
-    inputs = screen(sc, vh, rep, xss_inputs(tier, "c17"), "xss")
+    far = [vgen.b("x" * 70000 + "<a href='y' onclick=1><!-- c --><b>"), vgen.b("<a b='" + "v" * 66000 + "' c=d><![CDATA[e]]><f>")]      # offsets beyond 16 bits
+    inputs = screen(sc, vh, rep, xss_inputs(tier, "c17") + far, "xss")
     inp = sc.path("c17-inputs.ndjson")
     write_ndjson(inp, [{"in": x} for x in inputs])
     tr = sc.path("c17-trace.ndjson")
@@ -1370,7 +1371,8 @@ def c16(tier, sc):
     d = stage_specs(sc, "c16", [tfile])
     # model: LexInv holds in every state of the lexer over all short inputs, all six modes
     beh = sqli_export(sc, d, rep, tier, only={"lex"})
-    inputs = screen(sc, vh, rep, vgen.dedup([b["in"] for b in beh] + sqli_inputs(tier, "c16")), "sqli")
+    far = [vgen.b(" " * 70000 + "1 union select 'a', 2 -- x"), vgen.b("a" * 66000 + " or 1=1 /*" + "c" * 300 + "*/ " + "'" + "s" * 40 + "' x")]   # offsets beyond 16 bits
+    inputs = screen(sc, vh, rep, vgen.dedup([b["in"] for b in beh] + sqli_inputs(tier, "c16") + far), "sqli")
     inp = sc.path("c16-in.ndjson")
     write_ndjson(inp, [{"in": x} for x in inputs])
     tr = sc.path("c16-trace.ndjson")
